@@ -8,6 +8,7 @@ import (
 	"strings"
 
 	"golang.org/x/tools/go/ssa"
+	"golang.org/x/tools/go/ssa/ssautil"
 )
 
 const inf = 1 << 30
@@ -888,6 +889,27 @@ func condOf(b *ssa.BasicBlock) (*ssa.If, bool) {
 // single predecessor `from` (go/ssa never creates critical edges into single-pred blocks...) or all
 // other predecessors of `to` are dominated by `to` (loop back edges).
 func edgeDominates(from *ssa.BasicBlock, idx int, b *ssa.BasicBlock) bool {
+	if edgeDominatesClassic(from, idx, b) {
+		return true
+	}
+	// path-based: b is unreachable from the entry once the edge is removed, where branches whose
+	// outcome is fixed by the way their block was entered (a phi of constants / nil / provably
+	// non-nil values tested right after the join) are followed only in the feasible direction
+	fn := from.Parent()
+	if fn == nil || len(fn.Blocks) == 0 || len(from.Succs) == 2 && from.Succs[0] == from.Succs[1] {
+		return false
+	}
+	reached := false
+	walkThreaded(pstate{b: fn.Blocks[0]}, func(st pstate) bool {
+		if st.b == b {
+			reached = true
+		}
+		return !reached
+	}, func(f *ssa.BasicBlock, i int) bool { return f == from && i == idx })
+	return !reached
+}
+
+func edgeDominatesClassic(from *ssa.BasicBlock, idx int, b *ssa.BasicBlock) bool {
 	to := from.Succs[idx]
 	if !(to == b || to.Dominates(b)) {
 		return false
@@ -905,6 +927,358 @@ func edgeDominates(from *ssa.BasicBlock, idx int, b *ssa.BasicBlock) bool {
 		return false
 	}
 	return true
+}
+
+// ---- threaded control flow --------------------------------------------------------------------------
+//
+// A helper with several returns that is inlined (or written inline) produces a join: the results
+// are phis, and the caller tests them right away (`if err != nil`). Plain dominance cannot tell
+// that the path through `return errX` never continues past that test. pstate remembers through
+// which predecessor the last block with phis was entered, which fixes the value of those phis.
+
+type joinAt struct {
+	j *ssa.BasicBlock
+	k int
+}
+
+// pfact: a branch outcome learned on the way: v (a bool) is true/false, or v (nil-able) is
+// non-nil/nil.
+type pfact struct {
+	v     ssa.Value
+	truth bool
+}
+
+type pstate struct {
+	b     *ssa.BasicBlock
+	joins [3]joinAt // blocks with phis entered most recently (most recent first) and through which predecessor
+	facts [3]pfact
+}
+
+// resolve gives the value of v in state st (phis of remembered joins are replaced by their incoming value).
+func (st pstate) resolve(v ssa.Value) ssa.Value {
+	for i := 0; i < 8; i++ {
+		v = stripConv(v)
+		phi, ok := v.(*ssa.Phi)
+		if !ok {
+			return v
+		}
+		found := false
+		for _, ja := range st.joins {
+			if ja.j != nil && ja.j == phi.Block() && ja.k >= 0 && ja.k < len(phi.Edges) {
+				nv := phi.Edges[ja.k]
+				if p2, isPhi := stripConv(nv).(*ssa.Phi); isPhi && p2.Block() == ja.j {
+					return v // loop-carried swap: unknown
+				}
+				v = nv
+				found = true
+				break
+			}
+		}
+		if !found {
+			return v
+		}
+	}
+	return v
+}
+
+func (st pstate) fact(v ssa.Value) (truth, known bool) {
+	for _, f := range st.facts {
+		if f.v != nil && f.v == v {
+			return f.truth, true
+		}
+	}
+	return false, false
+}
+
+// condBase strips negations: cond == (base is true) XOR neg; for nil tests base is the tested value
+// and isNilTest is set: cond == (base != nil) XOR neg.
+func (st pstate) condBase(c ssa.Value) (base ssa.Value, neg, isNilTest bool) {
+	c = st.resolve(c)
+	for {
+		if u, ok := c.(*ssa.UnOp); ok && u.Op == token.NOT {
+			neg = !neg
+			c = st.resolve(u.X)
+			continue
+		}
+		break
+	}
+	if bo, ok := c.(*ssa.BinOp); ok && (bo.Op == token.EQL || bo.Op == token.NEQ) {
+		x, y := st.resolve(bo.X), st.resolve(bo.Y)
+		if isNilConst(x) {
+			x, y = y, x
+		}
+		if isNilConst(y) {
+			if bo.Op == token.EQL {
+				neg = !neg
+			}
+			return x, neg, true
+		}
+	}
+	return c, neg, false
+}
+
+// evalCond: 1 true, 0 false, -1 unknown.
+func (st pstate) evalCond(c ssa.Value) int {
+	base, neg, isNil := st.condBase(c)
+	res := -1
+	if isNil {
+		switch {
+		case isNilConst(base):
+			res = 0 // base != nil is false
+		case provablyNonNil(base, 3):
+			res = 1
+		default:
+			if t, ok := st.fact(base); ok {
+				res = b2i(t)
+			}
+		}
+	} else {
+		if k, ok := constBool(base); ok {
+			res = b2i(k)
+		} else if t, ok := st.fact(base); ok {
+			res = b2i(t)
+		}
+	}
+	if res >= 0 && neg {
+		res = 1 - res
+	}
+	return res
+}
+
+func b2i(b bool) int {
+	if b {
+		return 1
+	}
+	return 0
+}
+
+// provablyNonNil: v cannot be nil (interface holding a concrete value, fresh allocation, function,
+// or the result of a function all of whose returns are provably non-nil).
+func provablyNonNil(v ssa.Value, depth int) bool {
+	switch x := stripConv(v).(type) {
+	case *ssa.MakeInterface, *ssa.Alloc, *ssa.MakeClosure, *ssa.Function, *ssa.MakeMap, *ssa.MakeChan, *ssa.Global, *ssa.FieldAddr, *ssa.IndexAddr:
+		return true
+	case *ssa.ChangeInterface:
+		return provablyNonNil(x.X, depth)
+	case *ssa.UnOp:
+		// a package-level variable that is only ever assigned non-nil values by the package
+		// initialiser (var errX = errors.New("..."))
+		if g, isG := x.X.(*ssa.Global); isG && x.Op == token.MUL {
+			return globalNonNil(g)
+		}
+		return false
+	case *ssa.Phi:
+		if depth <= 0 {
+			return false
+		}
+		for _, e := range x.Edges {
+			if e == ssa.Value(x) {
+				continue
+			}
+			if !provablyNonNil(e, depth-1) {
+				return false
+			}
+		}
+		return true
+	case *ssa.Call:
+		f := x.Call.StaticCallee()
+		if f == nil || f.Blocks == nil || depth <= 0 || f.Signature.Results().Len() != 1 {
+			return false
+		}
+		n := 0
+		ok := true
+		for _, b := range f.Blocks {
+			if r, isR := b.Instrs[len(b.Instrs)-1].(*ssa.Return); isR {
+				n++
+				if !provablyNonNil(r.Results[0], depth-1) {
+					ok = false
+				}
+			}
+		}
+		return ok && n > 0
+	case *ssa.Extract:
+		call, isCall := x.Tuple.(*ssa.Call)
+		if !isCall || depth <= 0 {
+			return false
+		}
+		f := call.Call.StaticCallee()
+		if f == nil || f.Blocks == nil {
+			return false
+		}
+		n := 0
+		ok := true
+		for _, b := range f.Blocks {
+			if r, isR := b.Instrs[len(b.Instrs)-1].(*ssa.Return); isR && x.Index < len(r.Results) {
+				n++
+				if !provablyNonNil(r.Results[x.Index], depth-1) {
+					ok = false
+				}
+			}
+		}
+		return ok && n > 0
+	}
+	return false
+}
+
+var (
+	globalNonNilCache = map[*ssa.Global]bool{}
+	globalStores      map[*ssa.Global][]*ssa.Store
+	globalStoresProg  *ssa.Program
+)
+
+func globalNonNil(g *ssa.Global) bool {
+	if v, ok := globalNonNilCache[g]; ok {
+		return v
+	}
+	if g.Pkg == nil {
+		return false
+	}
+	if globalStores == nil || globalStoresProg != g.Pkg.Prog {
+		globalStores = map[*ssa.Global][]*ssa.Store{}
+		globalStoresProg = g.Pkg.Prog
+		for fn := range ssautil.AllFunctions(g.Pkg.Prog) {
+			for _, b := range fn.Blocks {
+				for _, in := range b.Instrs {
+					if st, ok := in.(*ssa.Store); ok {
+						if gg, isG := st.Addr.(*ssa.Global); isG {
+							globalStores[gg] = append(globalStores[gg], st)
+						}
+					}
+				}
+			}
+		}
+	}
+	res := len(globalStores[g]) > 0
+	for _, st := range globalStores[g] {
+		if st.Parent().Name() != "init" || st.Parent().Synthetic == "" || !provablyNonNil(st.Val, 3) {
+			res = false
+		}
+	}
+	globalNonNilCache[g] = res
+	return res
+}
+
+// walkThreaded explores the states reachable from start (visit is called on every state, start
+// included; returning false stops the walk). Edges for which skip returns true are not followed.
+func walkThreaded(start pstate, visit func(pstate) bool, skip func(from *ssa.BasicBlock, idx int) bool) {
+	seen := map[pstate]bool{start: true}
+	stack := []pstate{start}
+	for len(stack) > 0 {
+		if len(seen) > 50000 {
+			// give up on path sensitivity: visit every block once, without pruning
+			done := map[*ssa.BasicBlock]bool{}
+			for _, b := range start.b.Parent().Blocks {
+				if !done[b] {
+					done[b] = true
+					if !visit(pstate{b: b}) {
+						return
+					}
+				}
+			}
+			return
+		}
+		st := stack[len(stack)-1]
+		stack = stack[:len(stack)-1]
+		if !visit(st) {
+			return
+		}
+		follow := []int{}
+		for i := range st.b.Succs {
+			follow = append(follow, i)
+		}
+		if iff, ok := condOf(st.b); ok {
+			switch st.evalCond(iff.Cond) {
+			case 1:
+				follow = []int{0}
+			case 0:
+				follow = []int{1}
+			}
+		}
+		for _, i := range follow {
+			if skip != nil && skip(st.b, i) {
+				continue
+			}
+			nx := st.enter(i)
+			if !seen[nx] {
+				seen[nx] = true
+				stack = append(stack, nx)
+			}
+		}
+	}
+}
+
+// enter gives the state after following successor i of st.b.
+func (st pstate) enter(i int) pstate {
+	s := st.b.Succs[i]
+	nx := st
+	nx.b = s
+	// what the branch taken tells
+	if iff, ok := condOf(st.b); ok && len(st.b.Succs) == 2 && st.b.Succs[0] != st.b.Succs[1] {
+		base, neg, _ := st.condBase(iff.Cond)
+		if _, isConst := base.(*ssa.Const); !isConst && base != nil {
+			truth := (i == 0) != neg
+			if _, known := st.fact(base); !known {
+				copy(nx.facts[1:], nx.facts[:len(nx.facts)-1])
+				nx.facts[0] = pfact{base, truth}
+			}
+		}
+	}
+	// values defined in s are defined anew: forget what was known about them
+	for fi, f := range nx.facts {
+		if in, ok := f.v.(ssa.Instruction); ok && in.Block() == s {
+			nx.facts[fi] = pfact{}
+		}
+	}
+	for ji, ja := range nx.joins {
+		if ja.j == s {
+			nx.joins[ji] = joinAt{}
+		}
+	}
+	if len(s.Instrs) > 0 {
+		if _, isPhi := s.Instrs[0].(*ssa.Phi); isPhi {
+			// index of this edge among s's predecessors (the i-th successor edge of st.b)
+			k := -1
+			for pi, p := range s.Preds {
+				if p == st.b {
+					k = pi
+					if len(st.b.Succs) == 2 && st.b.Succs[0] == st.b.Succs[1] && i == 1 {
+						continue // second of two parallel edges: take the later predecessor slot
+					}
+					break
+				}
+			}
+			// compact and push
+			var js []joinAt
+			for _, ja := range nx.joins {
+				if ja.j != nil {
+					js = append(js, ja)
+				}
+			}
+			js = append([]joinAt{{s, k}}, js...)
+			nx.joins = [3]joinAt{}
+			copy(nx.joins[:], js)
+		}
+	}
+	return nx
+}
+
+// returnsFromEdge lists the returns reachable through edge (from, idx), each with the state in
+// which it is reached (for resolving returned phis).
+func returnsFromEdge(from *ssa.BasicBlock, idx int) []retAt {
+	var out []retAt
+	st0 := pstate{b: from}
+	walkThreaded(st0.enter(idx), func(st pstate) bool {
+		if r, ok := st.b.Instrs[len(st.b.Instrs)-1].(*ssa.Return); ok {
+			out = append(out, retAt{r, st})
+		}
+		return true
+	}, nil)
+	return out
+}
+
+type retAt struct {
+	ret *ssa.Return
+	st  pstate
 }
 
 // ---- exhaustive enum switches (A6 idiom) ----------------------------------------------------------
